@@ -27,7 +27,9 @@ FLOORS = {"nontrivial": 0.3, "no-tie-everywhere": 0.15, "bnode-renamed": 0.1}
 
 @st.composite
 def cases(draw, tier):
-    g = draw(gg.general(max_stmts=25, inst_props=(RDF_TYPE, RDF_TYPE, RDF_TYPE, "http://ex.org/isA")))
+    odd = draw(st.integers(0, 3)) == 0     # classes that are themselves typed / used as values; literals spelling a node's IRI
+    g = draw(gg.general(max_stmts=25, inst_props=(RDF_TYPE, RDF_TYPE, RDF_TYPE, "http://ex.org/isA"), class_typing=odd,
+                        iri_like_literals=odd))
     cfg = draw(gg.switches())
     cfg["instances_report_mode"] = "mixed"
     target = draw(common.target_spec(g))
@@ -54,6 +56,22 @@ def transform(triples, perm, ren):
         return (t[0], ren.get(t[1], t[1])) + tuple(t[2:]) if t[0] == "bnode" else t
     out = [(r(s), p, r(o)) for s, p, o in triples]
     return [out[i] for i in perm]
+
+
+def rename_doc(cdoc, ren):
+    """apply a blank-node renaming to the class values of a canonical document (in place)"""
+    def rk(kind):
+        return ("class", ren.get(kind[1], kind[1])) if kind[0] == "class" else kind
+    for lab, cs in cdoc.items():
+        if lab == "__dup_labels__":
+            continue
+        new_cons = {}
+        for (dp, key), e in cs.cons.items():
+            e["kinds"] = tuple(rk(k) for k in e["kinds"])
+            e["facts"] = [(rk(f[0]),) + tuple(f[1:]) for f in e["facts"]]
+            new_cons[(dp, rk(key) if key[0] == "class" else key)] = e
+        cs.cons = new_cons
+        cs.facts = {(f[0], rk(f[1])) + tuple(f[2:]) for f in cs.facts}
 
 
 def run(kw, triples, thr):
@@ -122,6 +140,8 @@ def check(case):
         return discard("unparsable-output")
     if "__dup_labels__" in a or "__dup_labels__" in b:
         return discard("label-collision")
+    if case.get("rename"):
+        rename_doc(a, case["rename"])      # blank-node labels can occur as value-set members ('^rdf:type [_:b0]')
     M, sel, label_of = common.model_for(case, triples)
     labels = common.label_features(triples, sel, M)
     identity = case["perm"] == sorted(case["perm"])
